@@ -297,7 +297,7 @@ func tsigBuffer(msgbuf []byte, rr *TSIG, requestMAC string, timersOnly bool) ([]
 	} else {
 		tsig := new(tsigWireFmt)
 		tsig.Name = CanonicalName(rr.Hdr.Name)
-		tsig.Class = ClassANY
+		tsig.Class = rr.Hdr.Class // RFC 8945 4.3.3: the CLASS of the TSIG record is covered by the MAC
 		tsig.Ttl = rr.Hdr.Ttl
 		tsig.Algorithm = CanonicalName(rr.Algorithm)
 		tsig.TimeSigned = rr.TimeSigned
